@@ -6,7 +6,7 @@
    order; exactly balanced transactions without elided amounts are stable (the order-free
    fragment of the property; exactly_balanced_is_stable). *)
 From LedgerV Require Import Base.Prelude Base.Round Model.Amount Model.Xact Model.Journal
-  Proofs.AmountProofs Proofs.XactProofs Proofs.JournalProofs Proofs.CompareProofs
+  Proofs.AmountProofs Proofs.XactProofs Proofs.JournalProofs Proofs.CompareProofs Proofs.GainLossProofs
   Model.AmountText Proofs.AmountTextProofs Gen.SourceGuards.
 From Coq Require Import Permutation.
 Local Open Scope Q_scope.
@@ -114,6 +114,21 @@ Proof.
   split; [eexists; vm_compute; reflexivity | vm_compute; reflexivity].
 Qed.
 Print Assumptions acceptance_order_dependence_refuted.
+
+(* repaired finding F65 (/repo c406784): whether a transaction's balance counts as "two commodities" (the implied
+   conversion rate branch) is decided on the components that are not exactly zero - a component left behind by a
+   commodity whose postings cancelled (posting order decides whether there is one) plays no part, and neither does the
+   hash-table order *)
+Theorem implied_rate_test_ignores_cancelled_components : forall b b',
+  filter (fun a => negb (is_realzero a)) b = filter (fun a => negb (is_realzero a)) b' ->
+  two_entries (VBal b) = two_entries (VBal b').
+Proof. exact two_entries_ignores_zero_components. Qed.
+Print Assumptions implied_rate_test_ignores_cancelled_components.
+
+Theorem implied_rate_test_order_free : forall b b',
+  Permutation b b' -> two_entries (VBal b) = two_entries (VBal b').
+Proof. exact two_entries_perm. Qed.
+Print Assumptions implied_rate_test_order_free.
 
 (* the tie to the source by translation: the lines of /repo/src this model transcribes (harness/translators/src_guards.py
    lists them, with the function each is looked for in) are still there, in the same order, in the source as it is NOW -
